@@ -354,6 +354,12 @@ func ruleGARGS(p *Program, r *Reporter) {
 		}
 	}
 	if call == nil {
+		// the body of the handler lives in a private helper: its call stands for the call of transact
+		if _, via := serverTransactBody(p); via != nil {
+			call = via
+		}
+	}
+	if call == nil {
 		r.Anchor(id, "OvsdbServer.Transact does not call transact")
 		return
 	}
